@@ -412,13 +412,20 @@ def process_fn(src, unit, key, spec, s, hp, ob, cb, add_edit, canary, disabled_r
     def anchor_lost(ins):
         if 'loop_end' in ins or 'loop_start' in ins:
             return None
-        occ = [m.start() for m in re.finditer(re.escape(ins['anchor']), text[ob:cb + 1])]
-        occ = [o for o in occ if src.mask[ob + o]]
-        if ins.get('unique', True) and 'nth' not in ins and len(occ) != 1:
-            return '%s: anchor `%s` found %d times' % (key, ins['anchor'], len(occ))
-        if ins.get('nth', 0) >= len(occ):
-            return '%s: anchor `%s` #%d not found' % (key, ins['anchor'], ins.get('nth', 0))
-        return None
+        # `anchor` may be a list of alternative texts: the first one that is found (uniquely) is used
+        alts = ins['anchor'] if isinstance(ins['anchor'], list) else [ins['anchor']]
+        why = None
+        for a in alts:
+            occ = [m.start() for m in re.finditer(re.escape(a), text[ob:cb + 1])]
+            occ = [o for o in occ if src.mask[ob + o]]
+            if ins.get('unique', True) and 'nth' not in ins and len(occ) != 1:
+                why = why or '%s: anchor `%s` found %d times' % (key, a, len(occ))
+            elif ins.get('nth', 0) >= len(occ):
+                why = why or '%s: anchor `%s` #%d not found' % (key, a, ins.get('nth', 0))
+            else:
+                ins['_anchor'] = a
+                return None
+        return why
     losses = [l for l in (anchor_lost(i) for i in spec.get('inserts', [])) if l]
     info.degraded.extend(losses)
     for ins in ([] if losses else spec.get('inserts', [])):
@@ -434,7 +441,7 @@ def process_fn(src, unit, key, spec, s, hp, ob, cb, add_edit, canary, disabled_r
             else:
                 add_edit(lob + 1, lob + 1, ' ' + ins['text'] + ' ', prio=3)
             continue
-        anchor = ins['anchor']
+        anchor = ins.get('_anchor') or (ins['anchor'] if not isinstance(ins['anchor'], list) else ins['anchor'][0])
         occ = [m.start() for m in re.finditer(re.escape(anchor), text[ob:cb + 1])]
         occ = [ob + o for o in occ if src.mask[ob + o]]
         nth = ins.get('nth', 0)
